@@ -43,10 +43,14 @@ pub struct SinkCfg {
     pub fault_at: Option<(usize, FaultKind)>,
     /// fail in `flush` instead of `write` (only reachable through BufWriter-like callers)
     pub fail_flush: bool,
+    /// the failure is a single refused call: afterwards the sink accepts writes again (a full
+    /// disk that got space back, a non-blocking descriptor that became writable). A caller that
+    /// drops the one error would go on and deliver output with a hole in it.
+    pub recovers: bool,
 }
 impl SinkCfg {
     pub fn healthy() -> SinkCfg {
-        SinkCfg { chunk: ChunkPolicy::Whole, eintr_per_256: 0, fault_at: None, fail_flush: false }
+        SinkCfg { chunk: ChunkPolicy::Whole, eintr_per_256: 0, fault_at: None, fail_flush: false, recovers: false }
     }
 }
 
@@ -88,15 +92,17 @@ impl Write for SimSink {
     fn write(&mut self, buf: &[u8]) -> io::Result<usize> {
         self.calls += 1;
         if self.fault_fired {
-            // a well-behaved caller stops after the first hard error; keep failing
+            // a well-behaved caller stops after the first hard error
             self.calls_after_fault += 1;
-            return Err(io::Error::new(ErrorKind::Other, "sim: sink already failed"));
+            if !self.cfg.recovers {
+                return Err(io::Error::new(ErrorKind::Other, "sim: sink already failed"));
+            }
         }
         if buf.is_empty() {
             return Ok(0);
         }
         if let Some((at, kind)) = self.cfg.fault_at {
-            if self.accepted.len() == at {
+            if self.accepted.len() == at && !self.fault_fired {
                 // a transient Interrupted may come right before the hard failure
                 if self.cfg.eintr_per_256 > 0 && self.eintr_burst < 3 && self.ctx.draw(Stream::F, 256, "eintr-at-fault") >= 256 - self.cfg.eintr_per_256 as u64 {
                     self.eintr_burst += 1;
@@ -138,7 +144,7 @@ impl Write for SimSink {
         .min(buf.len());
         if let Some((at, _)) = self.cfg.fault_at {
             // stop exactly at the armed offset so that the next call meets the fault
-            if self.accepted.len() < at {
+            if self.accepted.len() < at && !self.fault_fired {
                 n = n.min(at - self.accepted.len());
             }
         }
@@ -255,7 +261,7 @@ pub fn draw_benign_sink(ctx: &Ctx) -> SinkCfg {
         2 => 8,
         _ => 64,
     };
-    SinkCfg { chunk, eintr_per_256: eintr, fault_at: None, fail_flush: false }
+    SinkCfg { chunk, eintr_per_256: eintr, fault_at: None, fail_flush: false, recovers: false }
 }
 
 pub fn draw_benign_source(ctx: &Ctx) -> SourceCfg {
